@@ -356,6 +356,43 @@ func manyGlobals(n int) string {
 	return sb.String()
 }
 
+// bigCode: one function (main, or a function literal) whose instruction
+// stream is longer than 64 KiB (n statements of about ten bytes each), with
+// jumps of every kind across the 65536 / 131072 byte marks: jump operands are
+// four bytes wide and must be emitted and re-targeted as such.
+func bigCode(n int, inFunc bool, kind string) string {
+	var body strings.Builder
+	for i := 0; i < n; i++ {
+		body.WriteString("\tx = x + 1\n")
+	}
+	var sb strings.Builder
+	switch kind {
+	case "if-else":
+		sb.WriteString("x := 0\nif x == 0 {\n" + body.String() + "} else {\n\tx = -1\n}\nx = x + 2\n")
+	case "for":
+		sb.WriteString("x := 0\nfor i := 0; i < 2; i++ {\n" + body.String() + "\tif x < 0 { break }\n\tif x < 0 { continue }\n}\nx = x + 2\n")
+	case "for-in":
+		sb.WriteString("x := 0\nfor v in [1, 2] {\n" + body.String() + "}\nx = x + 2\n")
+	case "and-or":
+		// the right operand of && / || is long: one function call per term
+		terms := make([]string, n/2)
+		for i := range terms {
+			terms[i] = "(x + 1 > 0)"
+		}
+		sb.WriteString("x := 0\ny := x == 0 && (" + strings.Join(terms, " && ") + ")\nz := x != 0 || (" + strings.Join(terms, " && ") + ")\nx = x + 2\n")
+	default: // "cond"
+		terms := make([]string, n)
+		for i := range terms {
+			terms[i] = "x"
+		}
+		sb.WriteString("x := 1\ny := x == 1 ? (" + strings.Join(terms, " + ") + ") : 2\nz := x != 1 ? 3 : (" + strings.Join(terms, " + ") + ")\nx = x + 2\n")
+	}
+	if inFunc {
+		return "f := func() {\n" + sb.String() + "return x\n}\nr := f()\n"
+	}
+	return sb.String()
+}
+
 func manyConstants(n int) string {
 	var sb strings.Builder
 	sb.WriteString("x := 0\n")
@@ -406,6 +443,13 @@ func TestLimitBoundaries(t *testing.T) {
 	}
 	for _, n := range []int{65520, 65536, 65600} {
 		cases = append(cases, bc{fmt.Sprintf("constants-%d", n), manyConstants(n), false})
+	}
+	for _, kind := range []string{"if-else", "for", "for-in", "and-or", "cond"} {
+		for _, n := range []int{5000, 6800, 9000, 14000} {
+			for _, inFunc := range []bool{false, true} {
+				cases = append(cases, bc{fmt.Sprintf("bigcode-%s-%d-%v", kind, n, inFunc), bigCode(n, inFunc, kind), true})
+			}
+		}
 	}
 	for _, c := range cases {
 		c := c
